@@ -46,6 +46,7 @@ fn families(t: Tier) -> Vec<(&'static str, u64)> {
         ("program-dag-exact", t.n(10_000, 600_000)),
         ("program-dag-smooth", t.n(3_000, 400_000)),
         ("program-readme", t.n(500, 20_000)),
+        ("program-conv-graphs", t.n(800, 40_000)),
         ("program-toggles", t.n(4_000, 400_000)),
         ("history", t.n(5_000, 200_000)),
         ("training", t.n(800, 30_000)),
